@@ -521,7 +521,7 @@ def replay_model(ob, model, rng, hyps, goal):
         attempts.append((hyps_ok, gval))
         if hyps_ok and not gval:
             return dict(reproduced=True, inputs=_jsonable(inputs), env={k: v for k, v in _jsonable(env).items() if not k.startswith(("ro", "ra"))},
-                        observed={k: v for k, v in _jsonable(env).items() if k.startswith("ro")})
+                        observed=dict(list({k: v for k, v in _jsonable(env).items() if k.startswith("ro")}.items())[:40]))
         last = dict(reproduced=False, note="goal holds numerically at the solver's point(s)", attempts=len(attempts))
     return last or dict(reproduced=False)
 
@@ -648,7 +648,7 @@ class Check:
             print(f"VIOLATION property={self.pid} replay={path}")
             print(f"  what: {v['what']}")
             brief = {k: v["replay"][k] for k in ("exception", "inputs", "observed", "note") if k in v["replay"]}
-            print("  replayed on the real code: " + json.dumps(_jsonable(brief))[:1200])
+            print("  replayed on the real code: " + json.dumps(_jsonable(brief))[:700])
         solved = [r for r in self.results]
         nontrivial = [r for r in solved if not r.trivial and r.verdict in ("unsat", "sat")]
         samples = samples or []
